@@ -26,10 +26,10 @@ func init() {
 }
 
 type c18size struct {
-	acct   []int // per track: emitted units already accounted
-	cutsN  int
-	raw    uint64 // payload bytes of the open segment, smaller accounting (NALU / access unit bytes)
-	big    uint64 // larger accounting (container sample bytes: 4-byte length prefix per NALU in fMP4)
+	acct  []int // per track: emitted units already accounted
+	cutsN int
+	raw   uint64 // payload bytes of the open segment, smaller accounting (NALU / access unit bytes)
+	big   uint64 // larger accounting (container sample bytes: 4-byte length prefix per NALU in fMP4)
 }
 
 func unitSizes(cfg muxCfg, track int, data [][]byte) (raw, big uint64) {
